@@ -14,7 +14,7 @@ Definition mk_state (l : ledger) : state :=
 
 Inductive sinput :=
 | IOlvm (e : env) (t : otx) (o : oracle)
-| ISend (t : ntx) (used : Z).
+| ISend (min_fee : Z) (t : ntx) (used : Z).
 
 Record scase := {
   c_pre : ledger ;              (* deliver state before the transaction *)
@@ -44,8 +44,8 @@ Definition model_step (c : scase) : bool * Z * state :=
       | (NotExecuted, s') => (false, 0, s')
       | (Duplicate, s') => (c_ok c, c_gas_used c, s')   (* the cached response is replayed *)
       end
-  | ISend t used =>
-      let '(ok, s') := deliver_send s t used in (ok, if ok then used else c_gas_used c, s')
+  | ISend m t used =>
+      let '(ok, s') := deliver_send s m t used in (ok, if ok then used else c_gas_used c, s')
   end.
 
 (* 0 = agree; 1 = verdict differs; 2 = gas used differs; 3 = ledger differs; 4 = CheckTx differs *)
@@ -79,7 +79,9 @@ Definition sum_bal (s : state) (l : list addr) : Z := fold_right (fun a acc => b
    3 sender nonce not raised by exactly one       4 a transaction that was not executed changed
    the ledger           5 total OLT (all accounts + fee pool) changed
    6 the EVM view of a balance differs from the native record
-   7 executed although the nonce is not the account's nonce *)
+   7 executed although the nonce is not the account's nonce
+   8 executed although Validate refuses it on the state it ran on (wrong chain id / signer,
+     price below the minimum fee, negative amount, bad memo, ...) *)
 Definition monitor (c : scase) : list Z :=
   let s := mk_state (c_pre c) in
   let s' := mk_state (c_post c) in
@@ -105,9 +107,10 @@ Definition monitor (c : scase) : list Z :=
         (if pool s' =? pool s + used * t_price t then [] else [2]) ++
         (if nonce_of s' from =? nonce_of s from + 1 then [] else [3]) ++
         (if sum_bal s' l + pool s' =? sum_bal s l + pool s then [] else [5]) ++
-        (if t_nonce t =? nonce_of s from then [] else [7])
+        (if t_nonce t =? nonce_of s from then [] else [7]) ++
+        (if validate s (e_min_fee e) t then [] else [8])
       else if unchanged then [] else [4]
-  | ISend t used =>
+  | ISend m t used =>
       if c_ok c then
         let bal_ok := forallb (fun a =>
             balance s' a =? balance s a
@@ -115,7 +118,8 @@ Definition monitor (c : scase) : list Z :=
               + (if decide (a = n_to t) then n_amount t else 0)) l in
         (if bal_ok then [] else [1]) ++
         (if pool s' =? pool s + n_price t * used then [] else [2]) ++
-        (if sum_bal s' l + pool s' =? sum_bal s l + pool s then [] else [5])
+        (if sum_bal s' l + pool s' =? sum_bal s l + pool s then [] else [5]) ++
+        (if send_validate m t then [] else [8])
       else if unchanged then [] else [4]
   end.
 
@@ -164,8 +168,9 @@ Fixpoint triples_of (l : list Z) : list (addr * Z * Z) :=
   end.
 Definition mkL (b n : list Z) (p : Z) : ledger :=
   {| l_bal := pairs_of b ; l_non := pairs_of n ; l_pool := p |}.
-Definition mkE (bg : Z) (code : bool) (created : Z) (dup : bool) : env :=
-  {| e_block_gas := bg ; e_sender_code := code ; e_created := Z.to_N created ; e_dup := dup |}.
+Definition mkE (bg : Z) (code : bool) (created : Z) (dup : bool) (minfee : Z) : env :=
+  {| e_block_gas := bg ; e_sender_code := code ; e_created := Z.to_N created ; e_dup := dup ;
+     e_min_fee := minfee |}.
 Definition mkT (from to value gas price nonce nz z : Z) (chain memo : bool) : otx :=
   {| t_from := Z.to_N from ; t_to := if to <? 0 then None else Some (Z.to_N to) ; t_value := value ;
      t_gas := gas ; t_price := price ; t_nonce := nonce ; t_nz := nz ; t_z := z ;
@@ -173,8 +178,9 @@ Definition mkT (from to value gas price nonce nz z : Z) (chain memo : bool) : ot
 Definition mkO (left : Z) (failed : bool) (ints dead : list Z) : oracle :=
   {| o_left := left ; o_refund := 0 ; o_failed := failed ; o_int := pairs_of ints ;
      o_dead := map Z.to_N dead |}.
-Definition mkN (from to amount price gas : Z) : ntx :=
-  {| n_from := Z.to_N from ; n_to := Z.to_N to ; n_amount := amount ; n_price := price ; n_gas := gas |}.
+Definition mkN (from to amount price gas : Z) (sig : bool) : ntx :=
+  {| n_from := Z.to_N from ; n_to := Z.to_N to ; n_amount := amount ; n_price := price ; n_gas := gas ;
+     n_sig_ok := sig |}.
 Definition mkC (pre : ledger) (i : sinput) (ok : bool) (gu : Z) (post : ledger) (addrs : list Z)
   (check : Z) (cpre : ledger) (minfee : Z) (views : list Z) : scase :=
   {| c_pre := pre ; c_in := i ; c_ok := ok ; c_gas_used := gu ; c_post := post ;
